@@ -113,7 +113,11 @@ func init() {
 			nb := int(jobs) + 1
 			for j := 1; j <= nb+1; j++ {
 				for _, kind := range []string{"payload", "length", "truncate"} {
-					s := decSpec(fmt.Sprintf("dec j%d %dblk+tail block %d %s-damaged", jobs, nb, j, kind), jobs, nb, 100, "sleep", -1)
+					mode := "sleep"
+					if jobs == 3 && j >= 4 && kind == "payload" && !c.Thorough() {
+						mode = "cache" // 2*10^5 executions with sleep sets (near the quick deadline on a loaded machine)
+					}
+					s := decSpec(fmt.Sprintf("dec j%d %dblk+tail block %d %s-damaged", jobs, nb, j, kind), jobs, nb, 100, mode, -1)
 					s.CorruptBlock, s.CorruptKind = j, kind
 					add(s)
 				}
@@ -161,6 +165,29 @@ func init() {
 
 		famDecFree.Each(c, 0, func(emit func(decFreeCase)) {
 			const B = 1024
+			// a stream whose header carries the input size: the reader derives its task count from it
+			// and hands the spare jobs to the tasks (inverse BWT of blocks > 4 MiB runs that many helpers)
+			for _, dj := range []uint{1, 2, 3, 4, 5, 6, 7, 8, 11, 16} {
+				n := 4<<20 + 4096 + 16
+				emit(decFreeCase{P: Params{"BWT", "NONE", 8 << 20, 1, 0, int64(n), false, false}, Len: n, DecJobs: dj, RB: 1 << 16})
+			}
+			for _, cd := range [][2]string{{"NONE", "NONE"}, {"BWT", "ANS0"}} {
+				for _, nb := range []int{1, 2, 3, 5, 9} {
+					n := nb*B - 300
+					for _, dj := range []uint{1, 2, 3, 4, 8, 16, 64} {
+						for _, h := range []int64{int64(n), int64(n) - B, int64(n) + 5*B} {
+							if h <= 0 {
+								continue
+							}
+							emit(decFreeCase{P: Params{cd[0], cd[1], B, 2, 32, h, false, false}, Len: n, DecJobs: dj, RB: 700})
+							if nb >= 3 {
+								emit(decFreeCase{P: Params{cd[0], cd[1], B, 2, 32, h, false, false}, Len: n, DecJobs: dj, RB: B, Bad: nb - 1, Kind: "payload"})
+								emit(decFreeCase{P: Params{cd[0], cd[1], B, 2, 32, h, false, false}, Len: n, DecJobs: dj, RB: B, From: 2, To: nb})
+							}
+						}
+					}
+				}
+			}
 			for _, cd := range [][2]string{{"NONE", "NONE"}, {"LZ", "HUFFMAN"}, {"BWT", "ANS0"}} {
 				for _, ck := range []uint{0, 32, 64} {
 					for _, nb := range []int{1, 2, 3, 5, 9, 17} {
@@ -170,10 +197,10 @@ func init() {
 								if rb == 1 && (nb > 3 || dj > 3) {
 									continue
 								}
-								emit(decFreeCase{P: Params{cd[0], cd[1], B, 3, ck, -1, false}, Len: n, DecJobs: dj, RB: rb})
+								emit(decFreeCase{P: Params{cd[0], cd[1], B, 3, ck, -1, false, false}, Len: n, DecJobs: dj, RB: rb})
 								if rb != 1 && nb >= 3 {
 									for _, ft := range [][2]int{{2, nb + 1}, {3, nb}, {2, 4}, {nb, nb + 2}, {nb/2 + 1, nb + 1}} {
-										emit(decFreeCase{P: Params{cd[0], cd[1], B, 3, ck, -1, false}, Len: n, DecJobs: dj, RB: rb, From: ft[0], To: ft[1]})
+										emit(decFreeCase{P: Params{cd[0], cd[1], B, 3, ck, -1, false, false}, Len: n, DecJobs: dj, RB: rb, From: ft[0], To: ft[1]})
 									}
 								}
 								if ck == 0 {
@@ -184,7 +211,7 @@ func init() {
 										continue
 									}
 									for _, kind := range []string{"payload", "length", "truncate"} {
-										emit(decFreeCase{P: Params{cd[0], cd[1], B, 3, ck, -1, false}, Len: n, DecJobs: dj, RB: rb, Bad: bad, Kind: kind})
+										emit(decFreeCase{P: Params{cd[0], cd[1], B, 3, ck, -1, false, false}, Len: n, DecJobs: dj, RB: rb, Bad: bad, Kind: kind})
 									}
 								}
 							}
